@@ -65,6 +65,15 @@ type Node struct {
 	CryptIdentity bool `json:"crypt_identity,omitempty"`
 	CryptInd      bool `json:"crypt_ind,omitempty"`
 
+	// Nested: additional entries (typically /JBIG2Globals or /X holding a
+	// reference to another object of the graph) in the decode-parameter
+	// dictionary of filter NestedAt (modulo the chain length); the filters
+	// used here ignore entries they do not know, so the stream still decodes.
+	// A library source writes such a stream as Put(NewStream(dict with
+	// /Filter and /DecodeParms, encoded data)).
+	Nested   []gen.KV `json:"nested,omitempty"`
+	NestedAt int      `json:"nested_at,omitempty"`
+
 	// serial source only
 	LenInd    bool `json:"len_ind,omitempty"`    // /Length is a reference
 	FilterArr bool `json:"filter_arr,omitempty"` // a single filter is still written as a one-element array
@@ -276,7 +285,7 @@ func serialStreamDict(i int, n *Node, v pdf.Version) (filter, parms *gen.O, aux 
 	}
 	filter = &fv
 
-	any := false
+	any := len(n.Nested) > 0
 	for _, p := range ps {
 		if p != nil {
 			any = true
@@ -288,11 +297,18 @@ func serialStreamDict(i int, n *Node, v pdf.Version) (filter, parms *gen.O, aux 
 	nestedDone := false
 	var pe []gen.O
 	for j, p := range ps {
-		if p == nil {
+		nested := len(n.Nested) > 0 && j == n.NestedAt%len(ps)
+		if p == nil && !nested {
 			pe = append(pe, gen.O{T: "null"})
 			continue
 		}
-		e := gen.FromPDF(p)
+		e := gen.O{T: "dict"}
+		if p != nil {
+			e = gen.FromPDF(p)
+		}
+		if nested {
+			e.D = append(e.D, n.Nested...)
+		}
 		if n.ParmsInd&4 != 0 && !nestedDone {
 			for k := range e.D {
 				if e.D[k].V.T == "int" {
@@ -459,7 +475,22 @@ func (c *Case) writeLib(m *model) ([]byte, error) {
 		switch {
 		case n.Kind == "stream":
 			d := userDict(n).PDF().(pdf.Dict)
-			if len(n.Filters) == 0 && len(n.Data)%2 == 0 && !n.CryptIdentity {
+			full := userDict(n)
+			if len(n.Nested) > 0 && len(n.Filters) > 0 && !n.CryptIdentity {
+				// caller-made /Filter and /DecodeParms around encoded data
+				plain := *n
+				plain.FilterInd, plain.ParmsInd = 0, 0
+				filter, parms, _, ferr := serialStreamDict(i, &plain, v)
+				if ferr != nil {
+					return nil, ferr
+				}
+				full.D = append(append([]gen.KV{}, full.D...), gen.KV{K: gen.Hex("Filter"), V: *filter}, gen.KV{K: gen.Hex("DecodeParms"), V: *parms})
+				raw, eerr := encode(n, v)
+				if eerr != nil {
+					return nil, eerr
+				}
+				err = w.Put(ref, pdf.NewStream(full.PDF().(pdf.Dict), raw))
+			} else if len(n.Filters) == 0 && len(n.Data)%2 == 0 && !n.CryptIdentity {
 				err = w.Put(ref, pdf.NewStream(d, append([]byte{}, n.Data...)))
 			} else {
 				var filters []pdf.Filter
@@ -481,7 +512,7 @@ func (c *Case) writeLib(m *model) ([]byte, error) {
 					err = ws.Close()
 				}
 			}
-			so := &srcObj{ref: ref, isStream: true, dict: userDict(n), data: n.Data}
+			so := &srcObj{ref: ref, isStream: true, dict: full, data: n.Data}
 			if n.CryptIdentity {
 				so.crypt = 1
 				if n.CryptInd {
@@ -722,10 +753,18 @@ func runCase(c *Case) error {
 	if err := w.Put(pagesRef, pdf.Dict{"Type": pdf.Name("Pages"), "Kids": pdf.Array{}, "Count": pdf.Integer(0)}); err != nil {
 		return &harnessError{err}
 	}
-	for i := 0; i < c.PreAlloc; i++ {
-		w.Alloc() // never written: shifts the target numbering away from the source's
-	}
 	harness := map[pdf.Reference]bool{pagesRef: true}
+	// harness objects first, so that target numbers differ from the source's:
+	// every second one is written (a marker), the others stay unwritten
+	for i := 0; i < c.PreAlloc; i++ {
+		h := w.Alloc()
+		if i%2 == 0 {
+			harness[h] = true
+			if err := w.Put(h, pdf.Dict{"Pre": pdf.Integer(i)}); err != nil {
+				return &harnessError{err}
+			}
+		}
+	}
 	put := func(obj pdf.Object) (pdf.Reference, error) {
 		h := w.Alloc()
 		harness[h] = true
@@ -804,10 +843,20 @@ func runCase(c *Case) error {
 		inlined:    map[pdf.Reference]bool{},
 		hits:       map[pdf.Reference]int{},
 		cls:        c.obs.classes,
+
+		redir:       map[pdf.Reference]pdf.Reference{},
+		inlinedCall: map[pdf.Reference]int{},
+		altCall:     -1,
 	}
 	for i := range c.Calls {
 		call := &c.Calls[i]
 		ref := mkRef(call.N, call.G)
+		o.callIdx = i
+		snap := make(map[pdf.Reference]pdf.Reference, len(o.redir))
+		for k, v := range o.redir {
+			snap[k] = v
+		}
+		o.redirAt = append(o.redirAt, snap)
 		where := fmt.Sprintf("call %d (%s)", i, call.Op)
 		switch call.Op {
 		case "copyref":
@@ -850,6 +899,7 @@ func runCase(c *Case) error {
 			}
 		case "redirect":
 			o.f[ref] = results[i].ref
+			o.redir[ref] = results[i].ref
 			o.redirected[ref] = true
 			o.cls["redirect"] = true
 			if _, was := o.learnt[ref]; was {
